@@ -301,7 +301,7 @@ pub fn run(ctx: &RunCtx) -> i32 {
             cfgs.push(Cfg { transport: t, mech: m, fingerprint: false, max_tx: 10 });
         }
     }
-    let depth = if thorough { 8 } else { 6 };
+    let depth = if thorough { 9 } else { 7 };
     let per: Vec<_> = cfgs
         .par_iter()
         .map(|cfg| {
